@@ -31,12 +31,25 @@ TConsider == /\ IsEv("consider") /\ Adv
                 /\ wpc[w] = "apply" /\ queue[w] # <<>> /\ Head(queue[w]).idx = Ev.idx + 1 /\ FPPath(Head(queue[w]).fp) = Ev.file
                 /\ Consider(w)
 \* the report of apply_one_file_patch must be what the model computed
-TApplied == /\ IsEv("applied") /\ Adv /\ Stutter
+TApplied == /\ IsEv("applied") /\ Adv /\ ~scn.seq /\ Stutter
             /\ stack[WorkerOfFile(Ev.target)] # <<>>
             /\ LET st == stack[WorkerOfFile(Ev.target)][Len(stack[WorkerOfFile(Ev.target)])] IN
                st.idx = Ev.idx + 1 /\ st.target = Ev.target /\ st.final = Ev.final /\ (st.failed = {}) = Ev.ok
-TRefused == IsEv("rename-refused") /\ Adv /\ Stutter
-TPhase == IsEv("phase") /\ Adv /\ BarrierApply
+TRefused == IsEv("rename-refused") /\ Adv /\ ~scn.seq /\ Stutter
+\* the sequential driver has no separate `consider` point: `applied` is the whole step
+TSeqApplied == /\ IsEv("applied") /\ Adv /\ scn.seq
+               /\ LET w == WorkerOfFile(Ev.target) IN
+                  /\ wpc[w] = "apply" /\ queue[w] # <<>> /\ Head(queue[w]).idx = Ev.idx + 1
+                  /\ Consider(w)
+                  /\ Len(stack'[w]) = Len(stack[w]) + 1
+                  /\ LET st == stack'[w][Len(stack'[w])] IN
+                     st.target = Ev.target /\ st.final = Ev.final /\ (st.failed = {}) = Ev.ok
+TSeqRefused == /\ IsEv("rename-refused") /\ Adv /\ scn.seq
+               /\ LET w == WorkerOfFile(Ev.target) IN
+                  /\ wpc[w] = "apply" /\ queue[w] # <<>> /\ Head(queue[w]).idx = Ev.idx + 1
+                  /\ Consider(w) /\ stack'[w] = stack[w]
+TApplyDone == IsEv("apply-done") /\ Adv /\ scn.seq /\ BarrierApply
+TPhase == IsEv("phase") /\ Adv /\ ~scn.seq /\ BarrierApply
 TRejCreate == /\ IsEv("rej-create") /\ Adv
               /\ mainpc = "rejects" /\ \E r \in rejq : r.path = Ev.target /\ (\A q \in rejq : q.path = r.path => r.n <= q.n)
                                                         /\ RejStep /\ rejq' = rejq \ {r}
@@ -65,14 +78,14 @@ TFinish == IsEv("pc-mkdir") /\ Adv /\ Finish
 TAppend == IsEv("append") /\ Adv /\ Stutter /\ mainpc = "exit" /\ applied > 0
 \* events without a model counterpart of their own (sub-steps of an operation already taken)
 Noise == {"chmod", "write", "rej-write", "bak-mkdirp", "bak-write", "rmdir", "applied-open", "applied-write",
-          "worker-done", "rolled-past", "load-patch", "apply-done"}
+          "worker-done", "rolled-past", "load-patch"}
 TNoise == l <= Len(T) /\ Ev.ev \in Noise /\ Adv /\ Stutter
 
 \* ---- silent steps: Push actions that have no hook event; each strictly advances a worker ------
 StopCond(w) == IF queue[w] = <<>> THEN TRUE ELSE Head(queue[w]).idx > earliest
 Silent ==
   /\ UNCHANGED <<t, l>>
-  /\ \/ \E w \in Workers : wpc[w] = "apply" /\ queue[w] = <<>> /\ Consider(w)
+  /\ \/ \E w \in Workers : wpc[w] = "apply" /\ StopCond(w) /\ Consider(w)
      \/ \E w \in Workers : RollPast(w)
      \/ \E w \in Workers : /\ wpc[w] = "save" /\ cur[w].stage = "none" /\ SaveStep(w)
                            /\ (Unsaved(w) = {} \/ \E p \in Unsaved(w) : ~mem[w][p].existed /\ (mem'[w][p].loaded = FALSE \/ cur'[w].p = p))
@@ -83,7 +96,7 @@ Silent ==
      \/ (mainpc = "rejects" /\ rejq = {} /\ RejStep)
      \/ (mainpc = "record" /\ scn.cfg.dry /\ Finish)
 TInit == \E k \in 1..Len(Rec) : t = k /\ l = 1 /\ InitWith(Rec[k].scn)
-TNext == \/ TConsider \/ TApplied \/ TRefused \/ TPhase \/ TRejCreate \/ TUnlink \/ TMkdir \/ TCreate \/ TBackup
+TNext == \/ TConsider \/ TApplied \/ TRefused \/ TSeqApplied \/ TSeqRefused \/ TApplyDone \/ TPhase \/ TRejCreate \/ TUnlink \/ TMkdir \/ TCreate \/ TBackup
          \/ TReaddir \/ TFinish \/ TAppend \/ TNoise \/ Silent
 
 \* acceptance: the whole trace is consumed and the model run has terminated with the run's exit status
